@@ -93,6 +93,19 @@ def generate(rng, prefix="", n_funcs=None, with_main=True, rich=True):
         else:
             nvals[name] = rng.randint(2, 5)
             P.add(Item(name, "const", "const %s: usize = %d;\n" % (name, nvals[name])))
+    xconsts = []   # (name, expression usable as an i32 term)
+    if rng.random() < 0.5:
+        name = "%sB0" % px
+        P.add(Item(name, "const", "const %s: bool = %s;\n" % (name, rng.choice(["true", "false"]))))
+        xconsts.append((name, None))
+    if rng.random() < 0.5:
+        name = "%sU0" % px
+        P.add(Item(name, "const", "const %s: u8 = %d;\n" % (name, rng.randint(1, 250))))
+        xconsts.append((name, "%s as i32" % name))
+    if rng.random() < 0.4:
+        name = "%sL0" % px
+        P.add(Item(name, "const", "const %s: i64 = %d;\n" % (name, rng.randint(3 * 10**9, 9 * 10**9))))
+        xconsts.append((name, "(%s %% 1000) as i32" % name))
     tabs = {}
     for i in range(rng.randint(0, 2)):
         name = "%sT%d" % (px, i)
@@ -114,6 +127,19 @@ def generate(rng, prefix="", n_funcs=None, with_main=True, rich=True):
             words.append(name2)
             body = "word128 %s\n{\n\tfrom: %s,\n\tto: %s,\n}\n" % (name2, name, name)
             P.add(Item(name2, "word", body))
+    small_words = []
+    if rng.random() < 0.4:
+        h0 = "%sH0" % px
+        P.add(Item(h0, "word", "word16 %s\n{\n\tlo: u8,\n\thi: u8,\n}\n" % h0))
+        small_words.append(h0)
+        if rng.random() < 0.5:
+            h1 = "%sH1" % px
+            P.add(Item(h1, "word", "word32 %s\n{\n\ta: i16,\n\tb: %s,\n}\n" % (h1, h0)))
+            small_words.append(h1)
+    ptr_struct = None
+    if rng.random() < 0.35:
+        ptr_struct = "%sP0" % px
+        P.add(Item(ptr_struct, "struct", "struct %s\n{\n\tp: &i32,\n\tn: i32,\n}\n" % ptr_struct))
     for i in range(rng.randint(1, 3)):
         name = "%sS%d" % (px, i)
         members = [("a", "i32", "int")]
@@ -178,6 +204,10 @@ def generate(rng, prefix="", n_funcs=None, with_main=True, rich=True):
              "flag", "printv", "len", "guard", "eprint"]
     if not words:
         kinds.remove("word")
+    if small_words:
+        kinds.append("smallword")
+    if ptr_struct:
+        kinds += ["pget", "pset"]
     i = 0
     while i < n_funcs:
         kind = rng.choice(kinds)
@@ -190,6 +220,9 @@ def generate(rng, prefix="", n_funcs=None, with_main=True, rich=True):
             terms = ["a * %d" % rng.randint(2, 7), "b"]
             if rng.random() < 0.7:
                 terms.append(rng.choice(sorted(kvals)))
+            xs_terms = [t for _n, t in xconsts if t]
+            if xs_terms and rng.random() < 0.5:
+                terms.append(rng.choice(xs_terms))
             if ii_funcs and rng.random() < 0.6:
                 terms.append("%s(a %% 7, %d)" % (rng.choice(ii_funcs), rng.randint(0, 9)))
             if ii_funcs and rng.random() < 0.3:
@@ -238,6 +271,24 @@ def generate(rng, prefix="", n_funcs=None, with_main=True, rich=True):
             lines = ["return: (%s) %% %d" % (expr, MOD)]
             body, head = _fn(name, "w: %s" % w, "i32", lines)
             it = P.add(Item(name, "fn", body, head, ("word_i", w)))
+        elif kind == "smallword":
+            w = rng.choice(small_words)
+            if w.endswith("H1"):
+                expr = "w.a as i32 + w.b.lo as i32 * 2 + w.b.hi as i32"
+            else:
+                expr = "w.lo as i32 * %d + w.hi as i32" % rng.randint(2, 5)
+            body, head = _fn(name, "w: %s" % w, "i32", ["return: (%s) %% %d" % (expr, MOD)])
+            it = P.add(Item(name, "fn", body, head, ("smallword_i", w)))
+        elif kind == "pget":
+            lines = ["var r = (s.p + s.n * %d) %% %d;" % (rng.randint(1, 4), MOD)]
+            if do_print:
+                lines.append('print!("%s ", r, "\\n");' % tag())
+            lines.append("return: r")
+            body, head = _fn(name, "s: %s" % ptr_struct, "i32", lines)
+            it = P.add(Item(name, "fn", body, head, ("pget",)))
+        elif kind == "pset":
+            body, head = _fn(name, "s: &%s, v: i32" % ptr_struct, None, ["s.n = (s.n + v) %% %d;" % MOD])
+            it = P.add(Item(name, "fn", body, head, ("pset",)))
         elif kind == "mutual" and i + 1 < n_funcs:
             other = "%sf%d" % (px, i + 1)
             m1, m2 = rng.randint(1, 3), rng.randint(2, 3)
@@ -261,7 +312,9 @@ def generate(rng, prefix="", n_funcs=None, with_main=True, rich=True):
             body, head = _fn(name, "xs: &[]i32", None, lines)
             it = P.add(Item(name, "fn", body, head, ("arrmut",)))
         elif kind == "flag":
-            lines = ["var r = a;", "if flag == true", "{", "\tr = a + %d;" % rng.randint(1, 99), "}",
+            bconst = [n for n, t in xconsts if t is None]
+            cond = "if flag == %s" % (bconst[0] if bconst and rng.random() < 0.6 else "true")
+            lines = ["var r = a;", cond, "{", "\tr = a + %d;" % rng.randint(1, 99), "}",
                      "else", "{", "\tr = a + %d;" % rng.randint(100, 199), "}", "return: r"]
             body, head = _fn(name, "flag: bool, a: i32", "i32", lines)
             it = P.add(Item(name, "fn", body, head, ("flag",)))
@@ -354,6 +407,22 @@ def generate(rng, prefix="", n_funcs=None, with_main=True, rich=True):
                     lines.append("acc = (acc + %s(%s)) %% %d;" % (f, word_literal(sig[1]), MOD))
                 else:
                     lines.append("acc = (acc + %s(%s)) %% %d;" % (f, w_var(sig[1]), MOD))
+            elif sig[0] == "smallword_i":
+                if sig[1].endswith("H1"):
+                    lit = "%s { a: %d, b: %s { lo: %d, hi: %d } }" % (sig[1], rng.randint(0, 99), small_words[0], rng.randint(0, 9), rng.randint(0, 9))
+                else:
+                    lit = "%s { lo: %d, hi: %d }" % (sig[1], rng.randint(0, 9), rng.randint(0, 9))
+                lines.append("acc = (acc + %s(%s)) %% %d;" % (f, lit, MOD))
+            elif sig[0] in ("pget", "pset"):
+                if "ps" not in svars:
+                    svars["ps"] = "ps"
+                    lines.append("var px: i32 = %d;" % rng.randint(0, 50))
+                    lines.append("var ps = %s { p: &px, n: %d };" % (ptr_struct, rng.randint(0, 9)))
+                if sig[0] == "pget":
+                    lines.append("acc = (acc + %s(ps)) %% %d;" % (f, MOD))
+                else:
+                    lines.append("%s(&ps, %d);" % (f, rng.randint(0, 9)))
+                    lines.append("acc = (acc + ps.n) %% %d;" % MOD)
             elif sig[0] == "mut_pair":
                 lines.append("acc = (acc + %s(%d, %d)) %% %d;" % (f, rng.randint(0, 7), rng.randint(0, 9), MOD))
             elif sig[0] == "arrmut":
@@ -693,13 +762,21 @@ def probe_for(it):
             return "fn zz_probe()\n{\n\t%s(1);\n}\n" % it.name, 401
         if sig[0] == "flag":
             return "fn zz_probe() -> i32\n{\n\treturn: %s(true, 2)\n}\n" % it.name, 401
+        if sig[0] == "ptr_v":
+            return "fn zz_probe()\n{\n\tvar t: i32 = 1;\n\t%s(&t, 2);\n}\n" % it.name, 401
+        if sig[0] == "slice_i":
+            return "fn zz_probe() -> i32\n{\n\tvar t: [2]i32 = [1, 2];\n\treturn: %s(t)\n}\n" % it.name, 401
+        if sig[0] == "arrmut":
+            return "fn zz_probe()\n{\n\tvar t: [2]i32 = [1, 2];\n\t%s(&t);\n}\n" % it.name, 401
         return None, None
     if it.kind == "const":
-        if ": i32" in it.head:
-            return "fn zz_probe() -> i32\n{\n\treturn: %s\n}\n" % it.name, 402
-        if ": usize" in it.head:
-            return "fn zz_probe() -> usize\n{\n\treturn: %s\n}\n" % it.name, 402
-        return None, None
+        m = re.match(r"const \w+: (\[?[^=]*?) = ", it.head)
+        if not m:
+            return None, None
+        ty = m.group(1).strip()
+        if ty.startswith("["):
+            return "fn zz_probe() -> i32\n{\n\treturn: %s[0]\n}\n" % it.name, 402
+        return "fn zz_probe() -> %s\n{\n\treturn: %s\n}\n" % (ty, it.name), 402
     if it.kind in ("struct", "word"):
         return "fn zz_probe(p: &%s)\n{\n}\n" % it.name, 405
     return None, None
